@@ -33,19 +33,20 @@ def spell(draw, v, allow_upper=True):
     if draw(st.integers(0, 4)) == 0:
         s = "0" * draw(st.integers(1, 3)) + s
     if draw(st.booleans()):
-        s = "0x" + s
+        s = ("0X" if allow_upper and draw(st.integers(0, 5)) == 0 else "0x") + s  # int(.., 16) reads 0X like 0x
     return s
 
 
 @st.composite
 def cases(draw):
-    digits = draw(st.integers(1, 16))
+    digits = draw(st.sampled_from([1, 2, 2, 3, 3, 4] + list(range(1, 17))))  # short addresses (objects, images linked low) as often as long ones
     # a range starting at address 0 is the normal shape for relocatable objects (`call 0 <f>`); drawn explicitly, it is one point
     lo = 0 if draw(st.integers(0, 7)) == 0 else draw(st.integers(1, 16 ** digits - 1))
     span = 0 if draw(st.integers(0, 5)) == 0 else draw(st.one_of(st.integers(1, 64), st.integers(1, 16 ** max(1, digits - 1))))
     hi = min(lo + span, 2 ** 64 - 2)
     lo = min(lo, hi)
     rng = {"min": spell(draw, lo), "max": spell(draw, hi)}
+    style = draw(st.sampled_from([None, None, "intel", "intel", "att"]))
     insts = []
     n = draw(st.integers(3, 14))
     a = draw(st.sampled_from([0x10, 0x401000, 0xadd0]))
@@ -83,7 +84,10 @@ def cases(draw):
             m = draw(st.sampled_from(["mov", "add", "ret", "nop", "xor", "calls", "jmpf"]))
             insts.append({"addr": addr, "m": m, "ops": o, "kind": kind, "T": None, "where": None})
         a += draw(st.integers(1, 7))
-    return {"range": rng, "lo": lo, "hi": hi, "insts": insts}
+    out = {"range": rng, "lo": lo, "hi": hi, "insts": insts}
+    if style:
+        out["style"] = style  # the listing is text: the style a rule asks objdump for must not matter
+    return out
 
 
 def strategy(tier):
@@ -98,9 +102,14 @@ def evaluate(case):
         lines.append(inst_line(i["addr"], i["m"], i["ops"]))
     text = "\n".join(lines) + "\n"
     plain = jasm_io.stream_of(text)
-    tagged = jasm_io.stream_of(text, config={"valid_addr_range": case["range"]})
+    cfg = {"valid_addr_range": case["range"]}
+    if case.get("style"):
+        cfg["style"] = case["style"]
+    tagged = jasm_io.stream_of(text, config=cfg)
     ev.subcases = 2
     ev.tags = sorted({f"target={i['where']}" for i in case["insts"] if i["kind"] == "direct"})
+    if case.get("style"):
+        ev.tags.append("style=" + case["style"])
     if any(i["kind"] == "indirect" for i in case["insts"]):
         ev.tags.append("has-indirect")
     if any(i["kind"] == "nonbranch-number" for i in case["insts"]):
@@ -155,7 +164,7 @@ def evaluate(case):
                 return ev
     # through the rules
     for m in ("call", "jmp"):
-        doc = jasm_io.make_doc([{m: ["valid_addr"]}], mn_full=True, op_full=True, config={"valid_addr_range": case["range"]})
+        doc = jasm_io.make_doc([{m: ["valid_addr"]}], mn_full=True, op_full=True, config=cfg)
         r = jasm_io.match(doc, text, mode="list", search="all", only_addr=True)
         ev.subcases += 1
         if r[0] != "ok":
